@@ -91,7 +91,7 @@ RULES = [
     ('nc_d-400_sa', '3', ALL, lambda c: c.v('1') + c.v('2'), NC + ' Schedule A line 3'),
     ('nc_d-400_sa', '5', ALL, lambda c: min(c.v('3'), 20000.0), NC + ' Schedule A line 5'),
     ('nc_d-400_sa', '7b', ALL, lambda c: c.x('nc_d-400.6'), NC + ' Schedule A line 7b'),
-    ('nc_d-400_sa', '7c', ALL, lambda c: c.v('7b') * 0.075, NC + ' Schedule A line 7c'),
+    ('nc_d-400_sa', '7c', ALL, lambda c: max(0.0, c.v('7b') * 0.075), NC + ' Schedule A line 7c (a negative AGI gives no floor)'),
     ('nc_d-400_sa', '7d', ALL, lambda c: max(0.0, c.v('7a') - c.v('7c')), NC + ' Schedule A line 7d'),
     ('nc_d-400_sa', '10', ALL, lambda c: c.v('5') + c.v('6') + c.v('7d') + c.v('8') + c.v('9'), NC + ' Schedule A line 10'),
     ('nc_d-400_child_deduction_wkst', '2', ALL, lambda c: c.x('nc_d-400.6'), NC + ' child deduction worksheet line 2'),
